@@ -552,7 +552,21 @@ def adapt_function(fn, ovld, newname, slot=None):
             fn, ovld, tuple(rec_syms), cn_syms and cn_syms[0], newname, slot
         )
     else:
-        return rename_function(fn, newname)
+        return _mark_code(rename_function(fn, newname), slot)
+
+
+def _mark_code(new_fn, slot):
+    # Code objects compare by value, and f.next looks continuations up by the
+    # caller's code object: functions made by one factory (same bytecode, same
+    # signature) are told apart by a marker constant.
+    if slot is None:
+        slot = next(_current)
+    co = new_fn.__code__
+    if hasattr(co, "replace"):
+        new_fn.__code__ = co.replace(
+            co_consts=(*co.co_consts, f"<ovld handler {slot}>")
+        )
+    return new_fn
 
 
 def closure_wrap(tree, fname, names):
@@ -638,7 +652,7 @@ def recode(fn, ovld, recurse_sym, call_next_sym, newname, slot=None):
     )
     new_fn.__kwdefaults__ = fn.__kwdefaults__
     new_fn.__annotations__ = fn.__annotations__
-    new_fn = rename_function(new_fn, newname)
+    new_fn = _mark_code(rename_function(new_fn, newname), slot)
     new_fn.__globals__["__SUBTLER_TYPE"] = subtler_type
     new_fn.__globals__[ovld_mangled] = ovld.dispatch
     new_fn.__globals__[map_mangled] = ovld.map
